@@ -56,8 +56,10 @@ CHECKS = {
     "C03": dict(
         text="Machine-checked proofs about the model of the hand-written wrapper Deserialize: messages of every part pass through unchanged and reach their own part "
              "(wrapper_accepts_encoded, through the sorted value pass), acceptance is sound (the chosen part publishes the key and its decoder produced the value), at most "
-             "one part accepts, unknown single key lists all supported messages, non-single-key rejected; published lists = wire names by a regenerated obligation. The full "
-             "iff is false of the code for three document classes, recorded as known findings with replays. Tie: wrapper and every part decode ~25 derived documents per "
+             "one part accepts, unknown single key lists all supported messages, non-single-key rejected; published lists = wire names by a regenerated obligation. The unrestricted "
+             "iff is false of the code for three document classes (known findings with replays); on the complement of those classes — an explicit predicate InDomain: no repeated "
+             "member name, no number beyond the generic value's range, no leniently read sequence — the iff is proved for arbitrary documents (wrapper_iff_on_domain); the executable "
+             "form of the predicate (proved sound) is evaluated on every stream document and every difference between wrapper and parts on the real code must lie outside it. Tie: wrapper and every part decode ~25 derived documents per "
              "message on compiled generated contracts, model vs real and real vs the property's own oracle.",
         design="§8 C03",
         technique="Lean 4 proof on a model of serde derive + the wrapper's value pass, differential vs real generated types",
